@@ -2,6 +2,6 @@
 # try_seeded.sh <patch.diff> <prop>... : apply the change to /repo, run the quick checks, undo it.
 P=$1; shift
 git -C /repo apply $P || exit 2
-for p in "$@"; do /verif/check $p quick | tail -1; done
+for p in "$@"; do $(dirname $0)/../check $p quick | tail -1; done
 git -C /repo checkout -- .
 git -C /repo status --short
